@@ -40,5 +40,16 @@ ValuesOutcome(e) ==
                       ELSE IF bad("dict") THEN "copy-in-dict-changed-the-value"
                       ELSE IF bad("pickle") THEN "pickle-of-list-changed-the-value"
                       ELSE IF bad("shallow") THEN "shallow-copy-of-list-changed-the-value" ELSE "ok"
+        ELSE IF e.kind = "xproc"
+             \* pickled here after use as a dictionary key, unpickled in another interpreter
+             THEN LET bad(ob, x) ==
+                          IF ob.cls = "str" THEN ""
+                          ELSE IF ObjClause(ob, x) # "" THEN ObjClause(ob, x)
+                          ELSE IF ~x.eq_str THEN "unpickled-elsewhere-not-equal-to-its-string"
+                          ELSE IF ~x.hash_same THEN "unpickled-elsewhere-hashes-unlike-its-string"
+                          ELSE IF ~x.key_found \/ ~x.in_set THEN "unpickled-elsewhere-not-found-as-key"
+                          ELSE ""
+                  IN  IF bad(e.a, IF e.a.cls = "str" THEN <<>> ELSE o.a) # "" THEN bad(e.a, o.a)
+                      ELSE IF bad(e.b, IF e.b.cls = "str" THEN <<>> ELSE o.b) # "" THEN bad(e.b, o.b) ELSE "ok"
         ELSE "unknown-kind"
 =============================================================================
